@@ -1,4 +1,6 @@
 #include "harness.h"
+#include <errno.h>
+#include <aws/common/error.h>
 #include <string.h>
 
 extern const Harness H_C15, H_C07, H_C08, H_C14, H_C20, H_C03, H_C17, H_C01;
@@ -43,10 +45,27 @@ size_t size() { return sizeof kWords / sizeof kWords[0] - 1; }
 uint64_t at(size_t i) { return size() ? kWords[i % size()] : 0; }
 } // namespace hdict
 
+namespace hx {
+// The calling thread's errno and aws_last_error() are left over from whatever the application did last: before an operation of the
+// workload they may hold any value, including the ones the code under test itself compares against. Deterministic in (seed, n).
+void poison_errors(uint64_t seed, uint64_t n) {
+    uint64_t h = sim::mix64(seed ^ 0xE44044, n);
+    static const int errnos[] = {0, ENOMEM, EAGAIN, EINTR, EINVAL, ETIMEDOUT, EBADF, EIO, ENOSPC, EOVERFLOW, EDEADLK, EPERM};
+    static const int awserrs[] = {AWS_ERROR_SUCCESS, AWS_ERROR_OOM, AWS_ERROR_SHORT_BUFFER, AWS_ERROR_COND_VARIABLE_TIMED_OUT, AWS_ERROR_INVALID_ARGUMENT,
+                                  AWS_ERROR_OVERFLOW_DETECTED, AWS_ERROR_MUTEX_TIMEOUT, AWS_ERROR_THREAD_NO_SUCH_THREAD_ID, AWS_ERROR_FILE_WRITE_FAILURE,
+                                  AWS_ERROR_PRIORITY_QUEUE_EMPTY, AWS_ERROR_SYS_CALL_FAILURE, AWS_ERROR_INVALID_FILE_HANDLE};
+    int ae = awserrs[(h >> 8) % (sizeof awserrs / sizeof awserrs[0])];
+    if (ae == AWS_ERROR_SUCCESS) aws_reset_error(); else aws_raise_error(ae);
+    errno = errnos[h % (sizeof errnos / sizeof errnos[0])]; // last: aws_raise_error may touch errno
+}
+} // namespace hx
+
 namespace hgen {
 void sched_config(sim::Rng &r, sim::Plan &p, bool multi_threaded, bool allow_spurious, bool allow_stall, bool allow_clockjump,
                   int starve_tid) {
     p.cfg["sched_seed"] = (int64_t)(r.next() >> 1);
+    // half of the plans: every workload operation starts with stale errno / aws_last_error values on the calling thread
+    if (sim::mix64((uint64_t)p.seed, 0x9015) & 1) p.cfg["poison_errors"] = 1;
     p.cfg["cpu_cost"] = (int64_t)r.pick(std::vector<int64_t>{10, 100, 100, 1000});
     p.cfg["boot0"] = (int64_t)(1000000000ll + (int64_t)r.below(100000000000ull));
     if (!multi_threaded) {
